@@ -99,10 +99,9 @@ func checkC11(e *Env) {
 	gen := func(emitGroup func(*c11group)) {
 		// every list word in every form inside a sentence; 24-word sentences in
 		// quick (23 target words each), every size in thorough
-		sizes := []int{32}
-		if e.Thorough() {
-			sizes = []int{16, 20, 24, 28, 32}
-		}
+		// all five sizes (rotated in quick, every word at every size in thorough): short
+		// sentences sit near the 128-byte HMAC block, where raw and NFKD lengths can differ in side
+		sizes := []int{16, 20, 24, 28, 32}
 		r := rng.New(e.Seed, "C11-pass")
 		e.spellCorpus("C11", sizes, e.Thorough(), false, 0, func(sg *spellGroup) {
 			grp := &c11group{lang: sg.lang, kind: "sentence", bm: sg.base, bp: "", idx: sg.idx}
@@ -330,6 +329,9 @@ func checkC11(e *Env) {
 	})
 	refChecked.Add("calls_inside_histories", histCalls)
 
+	// the concurrent flavour of this monitor (C12 is the full treatment)
+	concCalls := e.concurrentSmoke(drv, "C11", e.smokePool("C11", "seed"), e.pick(2, 12), e.pick(25, 100))
+
 	// known-finding witnesses (D3): exact pairs listed in KNOWN_FINDINGS.txt
 	for _, f := range e.KnownKeys() {
 		kv := parseKey(f.Key)
@@ -370,19 +372,20 @@ func checkC11(e *Env) {
 		}
 	}
 	e.WriteEvidence("exploration", map[string]any{
-		"evaluations":                    stats.Ops,
-		"distinct_nontrivial":            nontrivial.Len(),
-		"rule":                           "a case is a pair of (mnemonic, passphrase) pairs with component-wise equal NFKD forms according to CPython (pairs failing the precondition are skipped and counted): sentences containing every list word of every language spelled in NFC/NFD/NFKC/NFKD/single-code-point pre-images/mixed, joined by U+0020, U+3000 or another space-like code point (Japanese always with both separators); passphrases and free-form mnemonics from the compatibility/combining generators in their four normal forms and a random pre-image respelling; the baseline of every group is also compared with the reference seed; non-trivial = the spellings differ bytewise; distinct by the four strings",
-		"samples":                        smp.List(),
-		"pairs_compared":                 pairs.Map(),
-		"pairs_skipped":                  skipped.Map(),
-		"which_component_differs":        differ.Map(),
-		"reference_checks":               refChecked.Map(),
-		"word_form_coverage":             covCount,
-		"nontrivial_word_forms_compared": got,
-		"nontrivial_word_forms_possible": total,
-		"python_normalisations":          e.Py().Calls,
-		"children":                       stats.Children,
+		"evaluations":                      stats.Ops,
+		"distinct_nontrivial":              nontrivial.Len(),
+		"calls_repeated_under_concurrency": concCalls,
+		"rule":                             "a case is a pair of (mnemonic, passphrase) pairs with component-wise equal NFKD forms according to CPython (pairs failing the precondition are skipped and counted): sentences containing every list word of every language spelled in NFC/NFD/NFKC/NFKD/single-code-point pre-images/mixed, joined by U+0020, U+3000 or another space-like code point (Japanese always with both separators); passphrases and free-form mnemonics from the compatibility/combining generators in their four normal forms and a random pre-image respelling; the baseline of every group is also compared with the reference seed; non-trivial = the spellings differ bytewise; distinct by the four strings",
+		"samples":                          smp.List(),
+		"pairs_compared":                   pairs.Map(),
+		"pairs_skipped":                    skipped.Map(),
+		"which_component_differs":          differ.Map(),
+		"reference_checks":                 refChecked.Map(),
+		"word_form_coverage":               covCount,
+		"nontrivial_word_forms_compared":   got,
+		"nontrivial_word_forms_possible":   total,
+		"python_normalisations":            e.Py().Calls,
+		"children":                         stats.Children,
 	}, []string{
 		"CPython unicodedata NFKD decides which pairs are equivalent (Unicode 14; assigned code points; non-starter runs <= 25 except the listed known-finding witnesses)",
 	})
